@@ -112,9 +112,14 @@ Definition stack_put (chained : bool) (bk : backend) (sk : stack) (st : store) (
            inr (mkS (raw_put bk (s_base st) b') b')
   end.
 
-(* insecureStore.Put: straight to the raw store, the wrappers' [last] is not touched *)
+Definition raw_del (base : raw) (r : Z) : raw :=
+  filter (fun b => negb (b_round b =? r)) base.
+
+(* the re-sync path: insecureStore.Del(round) then insecureStore.Put, straight to the raw store
+   (so the verified beacon replaces what is stored on every back-end); the wrappers' [last] is
+   not touched *)
 Definition insecure_put (bk : backend) (st : store) (b : beacon) : store :=
-  mkS (raw_put bk (s_base st) b) (s_wlast st).
+  mkS (raw_put bk (raw_del (s_base st) (b_round b)) b) (s_wlast st).
 
 (* ---------------------------------------------------------------------------------------- *)
 (* Streams and peers                                                                         *)
@@ -160,7 +165,7 @@ Section SYNC.
         | _ =>
           if negb (vfy b) then mkTn TnFail st []      (* invalid beacon *)
           else if resync then
-            let st' := insecure_put bk st b in        (* insecureStore.Put; no error case *)
+            let st' := insecure_put bk st b in        (* insecureStore.Del + Put; no error case *)
             if b_round b =? upTo then mkTn TnOk st' [b]
             else let o := tn_loop resync upTo st' l' in mkTn (tn_r o) (tn_st o) (b :: tn_ws o)
           else
